@@ -294,6 +294,12 @@ def _patch_runner(mod):
             violation('order_by_bases.not_permutation',
                       result=[_lname(x) for x in result],
                       input=[_lname(x) for x in layers])
+        unit = getattr(mod, 'UnitTests', None)
+        if unit is not None and any(x is unit for x in result) and \
+                result[0] is not unit:
+            ok = False
+            violation('order_by_bases.unit_not_first',
+                      result=[_lname(x) for x in result])
         pos = {id(x): i for i, x in enumerate(result)}
         for b in result:
             for a in closure(b)[1:]:
